@@ -48,7 +48,15 @@ func NewExtensionObject(value interface{}) *ExtensionObject {
 }
 
 func (e *ExtensionObject) Decode(b []byte) (int, error) {
+	return e.decodeNested(b, 0)
+}
+
+func (e *ExtensionObject) decodeNested(b []byte, level int) (int, error) {
+	if level >= MaxNestingLevel {
+		return 0, StatusBadEncodingLimitsExceeded
+	}
 	buf := NewBuffer(b)
+	buf.level = level + 1
 	e.TypeID = new(ExpandedNodeID)
 	buf.ReadStruct(e.TypeID)
 
@@ -63,6 +71,7 @@ func (e *ExtensionObject) Decode(b []byte) (int, error) {
 	}
 
 	body := NewBuffer(buf.ReadN(int(length)))
+	body.level = buf.level
 	if buf.Error() != nil {
 		return buf.Pos(), buf.Error()
 	}
